@@ -101,6 +101,10 @@ fn domain() -> Dom {
             length:  (ethnum::U256::ONE << 64) + ethnum::U256::new(3),
         },
     ));
+    // the two empty encodings (outside the domain the property lists, kept because their merges create
+    // no new variables): an empty struct and an empty packed encoding
+    elems.push(("Struct([])".into(), TE::struct_of(Vec::<storage_layout_extractor::tc::expression::Span>::new())));
+    elems.push(("Packed([])".into(), TE::packed_of(Vec::<storage_layout_extractor::tc::expression::Span>::new())));
     elems.push((
         "Conflict".into(),
         TE::conflict(TE::bool(), TE::address(), "seed conflict"),
@@ -296,6 +300,13 @@ fn check_triple(d: &mut Dom, i: usize, j: usize, k: usize, acc: &mut Acc) -> Cas
                     case,
                 ));
             }
+            if let Some(sig) = array_encoding_family(&d.elems, &[i, j, k], &x.expr, &y.expr) {
+                return CaseResult::Fail(Violation::new(
+                    sig,
+                    format!("merge(merge({na},{nb}),{nc}) = {x:?}\nmerge({na},merge({nb},{nc})) = {y:?}"),
+                    case,
+                ));
+            }
             let what = if x.expr != y.expr {
                 format!("result {} vs {}", abstract_expr(&x.expr), abstract_expr(&y.expr))
             } else {
@@ -338,6 +349,29 @@ fn absorber_family(elems: &[(String, TE)], idx: &[usize], x: &str, y: &str, _d: 
     } else {
         None
     }
+}
+
+/// The second recorded family: a dynamic array merged with a packed encoding is taken for dynamic bytes
+/// (the shape of a `bytes`/`string` slot), which forgets the element variable. With a word as third
+/// piece the result is the array in one grouping (the array absorbs the word as its length first) and
+/// bytes in the other; with a second dynamic array the element variables are equated in one grouping
+/// only.
+fn array_encoding_family(elems: &[(String, TE)], idx: &[usize], x: &str, y: &str) -> Option<String> {
+    let names: Vec<&str> = idx.iter().map(|i| elems[*i].0.as_str()).collect();
+    let arrays = names.iter().filter(|n| n.starts_with("DynArray")).count();
+    let encodings = names.iter().filter(|n| n.starts_with("Struct(") || n.starts_with("Packed(")).count();
+    let words = names.iter().filter(|n| n.starts_with("Word(")).count();
+    let pair = [abstract_expr(x), abstract_expr(y)];
+    if arrays == 1 && encodings == 1 && words == 1 && pair.contains(&"DynArray".to_string()) && pair.contains(&"Bytes".to_string()) {
+        return Some(
+            "merge is not associative: a dynamic array and a packed encoding fold to dynamic bytes in one grouping, the array absorbs the word first in the other"
+                .into(),
+        );
+    }
+    if arrays == 2 && encodings == 1 && x == y {
+        return Some("merge is not associative on {DynArray + DynArray + Packed}: emitted equalities differ".into());
+    }
+    None
 }
 
 /// reference word lattice of the statement of C15
